@@ -31,6 +31,153 @@ func runC09(r *Run) {
 		"Repository.Close racing handshakes, a refresh whose directory swap really fails; a case is non-trivial when a fault was injected"
 	c09StoreLevel(r)
 	c09RepoLevel(r)
+	r.rule += "; several loaded CRLs with the fault on one of them (every position of the walk order is hit over repeated handshakes)"
+	c09MultiEntry(r)
+}
+
+// c09MultiEntry: five configured CRLs are in force, the store of ONE of them fails at lookup. A certificate that no
+// list names can only be called "not revoked" when every store answered: each handshake must be denied, whatever the
+// order in which the lists are consulted (map iteration order differs per lookup: 24 handshakes per case).
+func c09MultiEntry(r *Run) {
+	ca := NewCA(CAOpts{CN: "C09 CA_multi", EC: true})
+	origin := NewOrigin()
+	defer origin.Close()
+	caFile := writeFile(scratchDir("c09mca"), "ca.pem", certPEM(ca.Cert))
+	type mc struct {
+		Storage string `json:"storage"`
+		Fault   string `json:"fault"`
+		At      int    `json:"faulty_entry"`
+	}
+	var cases []mc
+	reps := 1
+	if r.Thorough() {
+		reps = 6
+	}
+	for rep := 0; rep < reps; rep++ {
+		for _, st := range []string{"memory", "disk"} {
+			for _, f := range []string{"store-closed", "garbage-probe", "nil-store", "none"} {
+				for at := 0; at < 5; at += 2 {
+					cases = append(cases, mc{st, f, (at + rep) % 5})
+				}
+			}
+		}
+	}
+	const n = 5
+	parallel(len(cases), 12, func(idx int) {
+		c := cases[idx]
+		b := &opBuf{}
+		defer func() { b.flush(r) }()
+		cfg := VCfg{Mode: "crl_only", WorkDir: scratchDir("c09m"), Storage: c.Storage, TrustedSigners: []string{caFile}, UpdateInterval: "1h"}
+		var listed []*Leaf
+		for k := 0; k < n; k++ {
+			l := ca.IssueLeaf(LeafOpts{})
+			listed = append(listed, l)
+			path := fmt.Sprintf("/c09m/%d/%d.crl", idx, k)
+			origin.SetBytes(path, ca.MakeCRL(CRLOpts{Serials: []*big.Int{l.Cert.SerialNumber}, Number: int64(k + 1)}))
+			cfg.CRLUrls = append(cfg.CRLUrls, origin.URL(path))
+		}
+		probe := ca.IssueLeaf(LeafOpts{})
+		v, err := Provision(cfg)
+		if err != nil {
+			r.Violate("C09 provision-failed", fmt.Sprintf("multi %+v: %v", c, err), c)
+			return
+		}
+		defer v.Close()
+		chainsOf := func(l *Leaf) [][]*x509.Certificate { return [][]*x509.Certificate{{l.Cert, ca.Cert}} }
+		repo := v.V.VerifCRLChecker().VerifRepository()
+		ents := repo.VerifEntries()
+		iss, err := asn1parser.ParseIssuerRDNSequence(probe.Cert)
+		must(err)
+		issHex := hexs([]byte(iss.String()))
+		kind := map[string]string{"memory": "map", "disk": "ldb"}[c.Storage]
+		if len(ents) != n {
+			r.Violate("C09 harness-unexpected-repository", fmt.Sprintf("multi %+v: %d entries", c, len(ents)), c)
+			return
+		}
+		// which entry holds which list
+		holder := make([]int, n) // list k -> entry index
+		b.add("kv reset", "ok")
+		var eids []string
+		for ei, e := range ents {
+			if e.Store == nil || !e.Loaded {
+				r.Violate("C09 harness-unexpected-repository", fmt.Sprintf("multi %+v: entry %d not loaded", c, ei), c)
+				return
+			}
+			sid, eid := fmt.Sprintf("s%d", ei), fmt.Sprintf("e%d", ei)
+			if kind == "map" {
+				b.add("kv new "+sid+" map", "ok")
+			} else {
+				b.add("kv new "+sid+" ldb live"+fmt.Sprint(ei)+" false", "ok")
+			}
+			for k, l := range listed {
+				if lobs, _ := lookupObs(e.Store, iss, l.Cert.SerialNumber); strings.HasPrefix(lobs, "revoked ") {
+					holder[k] = ei
+					b.add(fmt.Sprintf("kv ins %s %s %s %s", sid, issHex, l.Cert.SerialNumber, strings.TrimPrefix(lobs, "revoked ")), "ok")
+				}
+			}
+			b.add("kv entry "+eid+" "+sid+" true", "ok")
+			eids = append(eids, eid)
+		}
+		fe := ents[holder[c.At]] // the entry holding list number c.At
+		fsid, feid := fmt.Sprintf("s%d", holder[c.At]), fmt.Sprintf("e%d", holder[c.At])
+		mustReject := false
+		switch c.Fault {
+		case "store-closed":
+			fe.Store.Close()
+			b.add("kv close "+fsid, "ok")
+			mustReject = kind == "ldb"
+		case "garbage-probe":
+			raw := []byte{0x30, 0x03, 0x02, 0x01}
+			markBadEntry(b, raw)
+			must(rawPut(fe.Store, iss.String()+"_"+probe.Cert.SerialNumber.String(), raw))
+			b.add(fmt.Sprintf("kv ins %s %s %s %s", fsid, issHex, probe.Cert.SerialNumber, hexs(raw)), "ok")
+			mustReject = true
+		case "nil-store":
+			var wrong crlstore.CRLStore
+			if kind == "map" {
+				wrong, err = storeFactory("ldb", scratchDir("c09mw")).CreateStore("w", true)
+			} else {
+				wrong, err = storeFactory("map", "").CreateStore("w", true)
+			}
+			must(err)
+			if e := repo.VerifUpdateEntry(fe.Identifier, wrong); e == nil {
+				r.Violate("C09 harness-swap-did-not-fail", fmt.Sprint(c), c)
+				return
+			}
+			wrong.Close()
+			b.add("kv entry "+feid+" nil true", "ok")
+			mustReject = true
+		}
+		accepted, rounds := 0, 24
+		first := ""
+		for i := 0; i < rounds; i++ {
+			vd, _ := v.Verify(chainsOf(probe))
+			if i == 0 {
+				first = vd
+			}
+			if vd != "reject" {
+				accepted++
+			}
+			if mustReject && vd != "reject" {
+				first = vd
+			}
+		}
+		b.add(fmt.Sprintf("kv verify crl_only good false %s %s %s", issHex, probe.Cert.SerialNumber, strings.Join(eids, " ")), first)
+		r.Count(fmt.Sprintf("multi:%s:%s:accepted=%d/%d", c.Storage, c.Fault, accepted, rounds))
+		r.Eval(fmt.Sprintf("multi/%d/%+v", idx, c), c.Fault != "none")
+		if mustReject && accepted > 0 {
+			r.Violate("C09 store-fault-on-one-of-several-crls-reported-not-revoked backend="+kind+" fault="+c.Fault,
+				fmt.Sprintf("%+v: %d CRLs in force, the store of one fails at lookup; %d of %d handshakes with a certificate no list names were accepted", c, n, accepted, rounds), c)
+		}
+		if !mustReject && accepted != rounds {
+			r.Violate("C09 healthy-verdict-wrong", fmt.Sprintf("multi %+v: unlisted certificate rejected %d of %d times without a failing store", c, rounds-accepted, rounds), c)
+		}
+		// a listed certificate stays rejected whatever fails elsewhere
+		other := listed[(c.At+1)%n]
+		if vd, _ := v.Verify(chainsOf(other)); vd != "reject" {
+			r.Violate("C09 healthy-verdict-wrong", fmt.Sprintf("multi %+v: certificate listed in a healthy store -> %s", c, vd), c)
+		}
+	})
 }
 
 // rawPut writes bytes under the hashed key string, bypassing the serializer.
@@ -55,9 +202,9 @@ func garbageVariants(valid []byte, rng func(int) int) map[string][]byte {
 		"truncated": valid[:len(valid)/2],
 		"onebyte":   valid[:1],
 		"random":    rnd,
-		"wrongtype": {0x04, 0x03, 0x01, 0x02, 0x03},                 // an OCTET STRING
+		"wrongtype": {0x04, 0x03, 0x01, 0x02, 0x03},                               // an OCTET STRING
 		"badlength": append([]byte{0x30, 0x84, 0xff, 0xff, 0xff, 0xff}, valid...), // length beyond the data
-		"trailing":  append(append([]byte{}, valid...), 0xde, 0xad),                // valid record followed by junk: the deserializer accepts it
+		"trailing":  append(append([]byte{}, valid...), 0xde, 0xad),               // valid record followed by junk: the deserializer accepts it
 	}
 }
 
@@ -418,10 +565,10 @@ func c09RunRepoCase(r *Run, ca *CA, origin *Origin, caFile string, idx int, c c0
 	b.add(fmt.Sprintf("kv ins s %s %s %s", issHex, listed.Cert.SerialNumber, strings.TrimPrefix(lobs, "revoked ")), "ok")
 	b.add("kv entry e s true", "ok")
 
-	mustReject := map[string]bool{}      // a store access fails for this probe: the handshake must be denied
-	expectSig := map[string]string{}     // signature to use if it is not
-	modelVerify := true                   // whether the abstract state after the fault is expressible for the model
-	var concurrent []string               // verdicts of handshakes racing the fault
+	mustReject := map[string]bool{}  // a store access fails for this probe: the handshake must be denied
+	expectSig := map[string]string{} // signature to use if it is not
+	modelVerify := true              // whether the abstract state after the fault is expressible for the model
+	var concurrent []string          // verdicts of handshakes racing the fault
 	switch c.Fault {
 	case "none":
 	case "store-closed":
